@@ -38,7 +38,9 @@ RULE = ("(a) random dataset stacks: a harness root (tensor / PIL / (image, mask)
         "collators, KDMixCollator) below 1..4 layers of XTransformWrapper / KDMultiViewWrapper (all config forms) / SemsegTransformWrapper / "
         "KDMixWrapper / common wrappers (BYOL, ImagenetMinaug x2, MUGS) / KDSubset / ShuffleWrapper / RepeatWrapper / plain KDWrapper, all "
         "without seed, optionally joined by KDConcatDataset, below ModeWrapper (several modes, return_ctx) or InterleavedSampler's concat "
-        "dataset; transforms are random well-typed compositions (kdv/h07_recipes.py) to depth 3 of compose / bare list / random-apply / "
+        "dataset; the parts of a concat / interleaved stack are separate datasets or different wrapper stacks over ONE shared root / shared "
+        "lower layers (shared part first or last); multi-view config lists mix KDTransform views, identity views and plain-callable views "
+        "(function / callable object) in every order (plain first / middle / last); transforms are random well-typed compositions (kdv/h07_recipes.py) to depth 3 of compose / bare list / random-apply / "
         "patchwise / scheduled over every stochastic recipe; x W in {2,3,4} workers of one base seed + one worker of another base seed "
         "(same rank) + one duplicate worker, K in 3..6 samples. (b) probe stacks of the same shapes on a real forked DataLoader "
         "(W 2..4, batch 1..3, two torch seeds, InterleavedSampler.get_data_loader included). distinct by full spec; trivial = no live generator")
@@ -68,7 +70,8 @@ ASSUMPTIONS = [
 ]
 MONITORS = ["sim_workers_observed", "live_generators_judged", "state_pairs_compared", "raw_sets_compared", "same_seed_pairs_compared",
             "samples_drawn", "collated_batches", "loader_runs", "loader_draws_observed", "loader_worker_pairs_compared",
-            "loader_repeats_compared"]
+            "loader_repeats_compared", "mv_plain_view_before_kd_view", "concat_parts_sharing_a_dataset",
+            "interleaved_parts_sharing_a_dataset"]
 
 STEP_LIMIT = 3_000_000
 WITNESSES_PER_KEY = 4
@@ -505,6 +508,16 @@ def _stack_cover(run, spec):
             run.cover("common", n["cls"])
         elif n["k"] == "mv":
             run.cover("mv", tuple(sorted({c["form"] for c in n["configs"]})), sum(c["n"] for c in n["configs"]))
+            order = "".join("p" if c.get("plain") else ("k" if c.get("tree") is not None else "i") for c in n["configs"])
+            run.cover("mv_order", spec["kind"], order)      # p = plain callable, k = KDTransform tree, i = identity
+            if "p" in order and "k" in order[order.index("p"):]:
+                run.count("mv_plain_view_before_kd_view")
+        elif n["k"] in ("concat", "interleaved"):
+            rids = [sorted({x["rid"] for x in S.stack_nodes(ch) if x.get("rid")}) for ch in n["children"]]
+            shared = sum(1 for r in rids if r)
+            run.cover(n["k"], spec["kind"], len(n["children"]), "shared" if shared >= 2 else "separate")
+            if shared >= 2:
+                run.count(f"{n['k']}_parts_sharing_a_dataset")
         elif n["k"] == "root":
             run.cover("root", n["T"]["kind"], tuple(c["c"] for c in n.get("collators", [])))
     for t in S.stack_trees(top):
